@@ -40,6 +40,14 @@ CLAIMS["C19"] = {
     "design_ref": "DESIGN.md §3 TYPES, §4 C19",
 }
 
+CLAIMS["C12"] = {
+    "text": "Decides that no parsed class member is silently dropped: on every path of every parser function to a successful return, "
+            "each operand/atom/set/node value produced by a parsing call is used (MUSTUSE, path-sensitive must-use over MIR with "
+            "reference aliasing). A dropped operand is exactly the /[a&b]/v defect class.",
+    "note": COMMON_NOTE + "Not decided: the interval algebra of CodePointSet (add/remove/intersect/inverted) and the v+i complement rule, which are value-level.",
+    "technique": "MIR path-sensitive must-use dataflow over parsed-fragment types",
+}
+
 PENDING = "rules for this property are designed (DESIGN.md §3/§4) but not built yet; nothing is claimed until they exist"
 
 NOT_APPLICABLE = {("C%02d" % i): PENDING for i in range(1, 21)}
